@@ -93,6 +93,22 @@ def h_scoped(n: int, k0: int, k1: int, k2: int, k3: int, a0: int, a1: int, a2: i
                 await block(it, level + 1)
                 if st.closed:
                     Wa.bad("scoped_iter:inner-exit-closed-underlying")
+                # the inner handle is dead although the outer scope is still open
+                inner = handles[-1] if handles else None
+                if inner is not None:
+                    pos0 = st.pos
+                    for meth in ("__anext__", "asend"):
+                        if hasattr(inner, meth):
+                            try:
+                                if meth == "asend":
+                                    await inner.asend(None)
+                                else:
+                                    await inner.__anext__()
+                                Wa.bad("scoped_iter:ended-inner-handle-still-yields(%s)" % meth)
+                            except StopAsyncIteration:
+                                pass
+                    if st.pos != pos0:
+                        Wa.bad("scoped_iter:ended-inner-handle-advances-underlying")
                 # the outer handle still works after the inner scope ended
                 try:
                     res_a.append(("outer", [await A.anext(it)]))
